@@ -107,7 +107,7 @@ func (w *c14World) exec(g int64, client int, c amCall, nested bool) {
 	case amStopErr:
 		err = w.a.StopWithError(amTID(c.ID), errCustomStop)
 	case amProcess:
-		err = w.a.Process(&stun.Message{TransactionID: amTID(c.ID)})
+		err = w.a.Process(&stun.Message{TransactionID: amTID(c.ID), Type: stun.NewType(stun.MethodBinding, stun.MessageClass(int(op.callTS)%4))})
 	case amCollect:
 		err = w.a.Collect(amTime(c.T))
 	case amSetHandler:
